@@ -301,6 +301,31 @@ func c19Helper(c *Ctx, p *core.Prog, h *ssa.Function, fns []*ssa.Function) {
 				probs = append(probs, "the helper writes to a file that is not its temporary at "+p.Pos(w.Pos())+": the target itself is modified in place")
 			}
 		}
+		// the branch taken when CreateTemp itself failed: there is no temporary to remove on it
+		var ctFailed []*ssa.BasicBlock
+		for _, ref := range core.Referrers(createTemp) {
+			ex, ok := ref.(*ssa.Extract)
+			if !ok || !isErrorType(ex.Type()) {
+				continue
+			}
+			for _, r2 := range core.Referrers(ex) {
+				bo, ok := r2.(*ssa.BinOp)
+				if !ok || (bo.Op != token.NEQ && bo.Op != token.EQL) || !(core.IsNilConst(bo.X) || core.IsNilConst(bo.Y)) {
+					continue
+				}
+				for _, r3 := range core.Referrers(bo) {
+					if iff, ok := r3.(*ssa.If); ok {
+						k := 0
+						if bo.Op == token.EQL {
+							k = 1
+						}
+						if fb := iff.Block().Succs[k]; len(fb.Preds) == 1 {
+							ctFailed = append(ctFailed, fb)
+						}
+					}
+				}
+			}
+		}
 		// every error return after CreateTemp removes the temporary
 		for _, b := range h.Blocks {
 			ret, ok := b.Instrs[len(b.Instrs)-1].(*ssa.Return)
@@ -313,6 +338,15 @@ func c19Helper(c *Ctx, p *core.Prog, h *ssa.Function, fns []*ssa.Function) {
 			}
 			// error right after CreateTemp itself failed: nothing to remove
 			if ex, ok := last.(*ssa.Extract); ok && ex.Tuple == ssa.Value(createTemp) {
+				continue
+			}
+			onFailed := false
+			for _, fb := range ctFailed {
+				if fb.Dominates(b) {
+					onFailed = true
+				}
+			}
+			if onFailed {
 				continue
 			}
 			if !blockOrDomCalls(b, h, "Remove") {
